@@ -352,6 +352,16 @@ fn do_op<W: BitArray>(st: &mut St<W>, seg: &[&str]) -> Option<String> {
                 *st = St::StackDec(d);
                 "ok".into()
             }
+            // `into_iterator()` consumes the coder; the history continues with a fresh one
+            ["intoiter"] => {
+                let bs: Vec<bool> = std::mem::take(c).into_iterator().map(|b| b.unwrap_infallible()).collect();
+                show_bits(&bs)
+            }
+            ["intoiterk", k] => {
+                let k = parse_hex(k)? as usize;
+                let bs: Vec<bool> = std::mem::take(c).into_iterator().take(k).map(|b| b.unwrap_infallible()).collect();
+                show_bits(&bs)
+            }
             ["len"] => hex(c.len() as u128),
             ["empty"] => format!("{}", SymbolCoder::is_empty(c)),
             ["raw"] => raw_stack(c),
@@ -381,6 +391,18 @@ fn do_op<W: BitArray>(st: &mut St<W>, seg: &[&str]) -> Option<String> {
                 let d = std::mem::take(c).into_decoder().unwrap_infallible();
                 *st = St::QDec(d);
                 "ok".into()
+            }
+            // `into_overshooting_iter()` consumes the encoder; the history continues with a fresh one
+            ["oiter"] => {
+                let it = std::mem::take(c).into_overshooting_iter().unwrap_infallible();
+                let bs: Vec<bool> = it.map(|b| b.unwrap_infallible()).collect();
+                show_bits(&bs)
+            }
+            ["oiterk", k] => {
+                let k = parse_hex(k)? as usize;
+                let it = std::mem::take(c).into_overshooting_iter().unwrap_infallible();
+                let bs: Vec<bool> = it.take(k).map(|b| b.unwrap_infallible()).collect();
+                show_bits(&bs)
             }
             ["len"] => hex(c.len() as u128),
             ["empty"] => format!("{}", SymbolCoder::is_empty(c)),
@@ -872,15 +894,21 @@ fn gen_stack_history(rng: &mut Rng, w: u32, maxlen: usize) -> String {
             gen_write_op(rng, w, true, &mut pending)
         } else if r < 17 {
             gen_read_op(rng, &mut pending)
+        } else if r == 19 && rng.chance(1, 4) {
+            // consuming iterator in the middle of a history: the history goes on with a fresh coder
+            pending.clear();
+            if rng.chance(1, 2) { "intoiter".to_string() } else { format!("intoiterk {:x}", rng.below(2 * w as u128 + 3)) }
         } else {
             gen_inspect_op(rng, true)
         };
         line.push_str(" | ");
         line.push_str(&op);
     }
-    match rng.next() % 4 {
+    match rng.next() % 6 {
         0 => line.push_str(" | todec | len | raw | drain | r | len | empty | raw"),
         1 => line.push_str(" | raw | len | drain | raw | r | empty"),
+        2 => line.push_str(" | raw | len | iter | intoiter | raw | len | empty | r"),
+        3 => line.push_str(&format!(" | raw | len | intoiterk {:x} | raw | len | w 1 | r | r", rng.below(2 * w as u128 + 3))),
         _ => line.push_str(" | raw | len | empty | export | raw | len | iter"),
     }
     line
@@ -892,9 +920,27 @@ fn gen_queue_history(rng: &mut Rng, w: u32, maxlen: usize) -> String {
     let mut pending: Vec<u32> = Vec::new();
     for _ in 0..n {
         let r = rng.next() % 20;
-        let op = if r < 15 { gen_write_op(rng, w, false, &mut pending) } else { gen_inspect_op(rng, false) };
+        let op = if r < 15 {
+            gen_write_op(rng, w, false, &mut pending)
+        } else if r == 19 && rng.chance(1, 4) {
+            pending.clear();
+            if rng.chance(1, 2) { "oiter".to_string() } else { format!("oiterk {:x}", rng.below(2 * w as u128 + 3)) }
+        } else {
+            gen_inspect_op(rng, false)
+        };
         line.push_str(" | ");
         line.push_str(&op);
+    }
+    match rng.next() % 6 {
+        0 => {
+            line.push_str(" | raw | len | getc | oiter | raw | len | empty | w 1 | raw");
+            return line;
+        }
+        1 => {
+            line.push_str(&format!(" | raw | len | oiterk {:x} | raw | len | ws 101 | export", rng.below(2 * w as u128 + 3)));
+            return line;
+        }
+        _ => {}
     }
     line.push_str(" | raw | len | empty | todec | raw | mexh");
     // decode in FIFO order what was encoded, interleaved with stray reads
@@ -927,6 +973,11 @@ fn gen_fill_levels(rng: &mut Rng, w: u32, reps: usize, out: &mut Vec<String>) {
                 "bits.queue {:x} | new | ws {} | raw | len | empty | getc | raw | len | export | raw | len | w 1 | raw | todec | mexh | drain | mexh",
                 w, bs
             ));
+            // the consuming iterators at every fill level: all items, and a prefix of them
+            out.push(format!("bits.stack {:x} | new | ws {} | iter | intoiter | raw | len | empty", w, bs));
+            out.push(format!("bits.stack {:x} | new | ws {} | intoiterk {:x} | raw | r", w, bs, rng.below(k as u128 + 2)));
+            out.push(format!("bits.queue {:x} | new | ws {} | oiter | raw | len | empty", w, bs));
+            out.push(format!("bits.queue {:x} | new | ws {} | getc | oiterk {:x} | raw | w 1 | export", w, bs, rng.below(k as u128 + w as u128 + 2)));
         }
     }
 }
@@ -1982,6 +2033,131 @@ fn oracle_guard_twin<W: BitArray>(rng: &mut Rng, reps: usize, rep: &mut Report) 
     rep.count(&format!("C08.guard_twin.W{}", w));
 }
 
+/// The consuming iterators: `StackCoder::into_iterator()` yields exactly the bits on the stack,
+/// last written first (LIFO), then ends; `QueueEncoder::into_overshooting_iter()` yields the
+/// written bits in order (FIFO), then overshoots with the zero padding of the last word, then
+/// ends.  Both equal repeated `read_bit()` on a twin's decoder, and the non-consuming views taken
+/// before (`iter()`, `get_compressed()`) do not change what they yield (C08).
+fn oracle_into_iters<W: BitArray>(rng: &mut Rng, reps: usize, rep: &mut Report) {
+    let w = W::BITS;
+    for n in (1..=(3 * w + 2)).chain(0..1) {
+        for rep_i in 0..reps {
+            // ---- stack, after n writes and r reads (r = 0, down to a word boundary, random)
+            let r = match rep_i % 3 {
+                0 => 0,
+                1 => n % w,
+                _ => rng.below(n as u128 + 1) as usize,
+            };
+            let mut phases_desc = String::new();
+            let bs = rand_bits(rng, n);
+            let mut ghost = bs.clone();
+            let mk = |inspect: bool| -> StackCoder<W> {
+                let mut c = stack_of::<W>(&bs);
+                for _ in 0..r {
+                    c.read_bit().unwrap_infallible();
+                }
+                if inspect {
+                    let _ = c.iter().count();
+                    let _ = c.get_compressed().len();
+                }
+                c
+            };
+            for _ in 0..r {
+                ghost.pop();
+                phases_desc.push_str(" | r");
+            }
+            let desc = format!("bits.stack {:x} | new | ws {}{}", w, show_bits(&bs), phases_desc);
+            let expect: Vec<bool> = ghost.iter().rev().copied().collect();
+            rep.eval("C16");
+            rep.count("C16.op.into_iterator");
+            let got: Vec<bool> = mk(false).into_iterator().map(|b| b.unwrap_infallible()).collect();
+            if got != expect {
+                rep.fail("C16", format!("{} | intoiter => {} expected the bits on the stack in LIFO order {}", desc, show_bits(&got), show_bits(&expect)));
+                continue;
+            }
+            // = repeated read_bit
+            rep.eval("C16");
+            let mut twin = mk(false);
+            let mut reads = Vec::new();
+            while let Some(b) = twin.read_bit().unwrap_infallible() {
+                reads.push(b);
+            }
+            if reads != got || twin.read_bit().unwrap_infallible().is_some() {
+                rep.fail("C16", format!("{} | intoiter => {} but repeated read_bit yields {}", desc, show_bits(&got), show_bits(&reads)));
+                continue;
+            }
+            // the `Iterator` impl of the coder itself, used through `IntoIterator` (`for … in`)
+            rep.eval("C16");
+            rep.count("C16.op.for_loop_into_iter");
+            let mut looped = Vec::new();
+            for b in mk(false) {
+                looped.push(b.unwrap_infallible());
+            }
+            if looped != got {
+                rep.fail("C16", format!("{} | drain => {} but into_iterator yields {}", desc, show_bits(&looped), show_bits(&got)));
+                continue;
+            }
+            // C08: iter() / get_compressed() before do not change what it yields; a prefix is a prefix
+            rep.eval("C08");
+            let k = rng.below(n as u128 + 2) as usize;
+            let insp: Vec<bool> = mk(true).into_iterator().map(|b| b.unwrap_infallible()).collect();
+            let part: Vec<bool> = mk(true).into_iterator().take(k).map(|b| b.unwrap_infallible()).collect();
+            if insp != got || part[..] != got[..k.min(got.len())] {
+                rep.fail("C08", format!("{} | iter | getc | intoiterk {:x} => {} / all {} but uninspected {}", desc, k, show_bits(&part), show_bits(&insp), show_bits(&got)));
+                continue;
+            }
+
+            // ---- queue, after n writes
+            let desc = format!("bits.queue {:x} | new | ws {}", w, show_bits(&bs));
+            rep.eval("C16");
+            rep.count("C16.op.into_overshooting_iter");
+            let got: Vec<bool> = queue_of::<W>(&bs).into_overshooting_iter().unwrap_infallible().map(|b| b.unwrap_infallible()).collect();
+            if got.len() < n || got[..n] != bs[..] {
+                rep.fail("C16", format!("{} | oiter => {} does not start with the written bits", desc, show_bits(&got)));
+                continue;
+            }
+            // documented overshoot: zero bits up to the next word boundary, then the end
+            if got.len() != n.div_ceil(w) * w || got[n..].iter().any(|&b| b) {
+                rep.fail("C16", format!("{} | oiter => {}: after the {} written bits the iterator must overshoot with zero bits up to the word boundary only", desc, show_bits(&got), n));
+                continue;
+            }
+            if n % w == 0 {
+                rep.count("C16.op.into_overshooting_iter.no_overshoot");
+            }
+            rep.eval("C16");
+            let mut d = queue_of::<W>(&bs).into_decoder().unwrap_infallible();
+            let mut reads = Vec::new();
+            while let Some(b) = d.read_bit().unwrap_infallible() {
+                reads.push(b);
+            }
+            if reads != got {
+                rep.fail("C16", format!("{} | oiter => {} but repeated read_bit on into_decoder() yields {}", desc, show_bits(&got), show_bits(&reads)));
+                continue;
+            }
+            rep.eval("C08");
+            let mut qi = queue_of::<W>(&bs);
+            let _ = qi.get_compressed().len();
+            let _ = qi.len();
+            let k = rng.below(got.len() as u128 + 2) as usize;
+            let part: Vec<bool> = qi.into_overshooting_iter().unwrap_infallible().take(k).map(|b| b.unwrap_infallible()).collect();
+            if part[..] != got[..k.min(got.len())] {
+                rep.fail("C08", format!("{} | getc | len | oiterk {:x} => {} but uninspected {}", desc, k, show_bits(&part), show_bits(&got)));
+                continue;
+            }
+        }
+    }
+    // `SymbolCodeError::into_coder_error` (the plumbing behind "invalid codewords are rejected")
+    rep.eval("C16");
+    rep.count("C16.op.into_coder_error");
+    let e1 = SymbolCodeError::<u8>::InvalidCodeword(7).into_coder_error::<()>();
+    let e2 = SymbolCodeError::<u8>::OutOfCompressedData.into_coder_error::<()>();
+    let ok = matches!(e1, CoderError::Frontend(SymbolCodeError::InvalidCodeword(7)))
+        && matches!(e2, CoderError::Frontend(SymbolCodeError::OutOfCompressedData));
+    if !ok {
+        rep.fail("C16", "SymbolCodeError::into_coder_error does not wrap the error as CoderError::Frontend".to_string());
+    }
+}
+
 fn check_golomb<N>(n: u32, v: u128, rng: &mut Rng, rep: &mut Report)
 where
     N: num_traits::Unsigned + num_traits::PrimInt + num_traits::WrappingAdd + num_traits::WrappingSub,
@@ -2075,6 +2251,11 @@ pub fn oracle(rng: &mut Rng, tier: &str, rep: &mut Report) {
     oracle_guard_twin::<u16>(rng, greps, rep);
     oracle_guard_twin::<u32>(rng, greps, rep);
     oracle_guard_twin::<u64>(rng, greps, rep);
+    let ireps = if thorough { 12 } else { 3 };
+    oracle_into_iters::<u8>(rng, ireps, rep);
+    oracle_into_iters::<u16>(rng, ireps, rep);
+    oracle_into_iters::<u32>(rng, ireps, rep);
+    oracle_into_iters::<u64>(rng, ireps, rep);
     let hist = if thorough { 20000 } else { 1000 };
     oracle_stack_directed::<u8>(rng, hist, rep);
     oracle_stack_directed::<u16>(rng, hist, rep);
